@@ -4,7 +4,7 @@
    getattr it performs on an object (the only effect constructor there is). *)
 From Coq Require Import NArith List Bool.
 From Verif Require Import AutoImp.World AutoImp.Needs AutoImp.TryImport AutoImp.AutoImport AutoImp.Spec
-                          AutoImp.Wire AutoImp.NeedsProofs AutoImp.AutoImportProofs.
+                          AutoImp.Wire AutoImp.NeedsProofs AutoImp.AutoImportProofs AutoImp.FinderEffects AutoImp.FinderEffectsProofs.
 Import ListNotations.
 
 (* every getattr(o, a) in the trace, for dotted chains of any depth and any namespace contents:
@@ -39,6 +39,47 @@ Theorem C20_no_missing_noop : forall w idx ms st,
   (forall m, In m ms -> needs st m = false) -> auto_import w idx (Some ms) st = (st, RTrue).
 Proof. exact no_missing_noop. Qed.
 Print Assumptions C20_no_missing_noop.
+
+(* ---------- lifted from one call to the whole analysis (find_missing_imports on compound code) ----------
+   `analysis R` (AutoImp/FinderEffects.v) is ANY computation that reaches the user's objects only by asking
+   symbol_needs_import (any stack, any name, any number of times, continuing with the answers in any way);
+   the finder is such a computation, so these hold for every program and every namespace stack. *)
+
+(* the effect trace of the whole analysis is exactly the concatenation, in call order, of the traces of
+   the symbol_needs_import calls it makes *)
+Theorem C20_analysis_trace_concat : forall R ld at_ (c : analysis R),
+  let '(_, tr, qs) := analyse ld at_ c in tr = flat_map (trace_of ld at_) qs.
+Proof. exact analysis_trace_concat. Qed.
+Print Assumptions C20_analysis_trace_concat.
+
+Theorem C20_analysis_getattr_only_on_registered_modules : forall R ld at_ (c : analysis R) o a,
+  let '(_, tr, qs) := analyse ld at_ c in
+  In (GetAttr o a) tr ->
+  exists q, In q qs /\ exists d rest, assoc d ld = Some o /\ snd q = d ++ a :: rest.
+Proof. exact analysis_getattr_registered. Qed.
+Print Assumptions C20_analysis_getattr_only_on_registered_modules.
+
+Theorem C20_analysis_no_import_no_call : forall R ld at_ (c : analysis R),
+  let '(_, tr, _) := analyse ld at_ c in Forall is_read tr.
+Proof. exact analysis_all_reads. Qed.
+Print Assumptions C20_analysis_no_import_no_call.
+
+(* the client the correspondence runs (the questions captured from the real finder, in order) asks exactly
+   those questions, in that order, and its trace is the concatenation of their traces *)
+Theorem C20_finder_client_calls : forall ld at_ qs,
+  analyse ld at_ (finder_client qs) =
+  (map (fun q => fst (answer ld at_ q)) qs, flat_map (trace_of ld at_) qs, qs).
+Proof. exact finder_client_calls. Qed.
+Print Assumptions C20_finder_client_calls.
+
+(* non-vacuity, compound snippet `ta.ua.ub , ta.uc` = two calls; the second answer depends on the state only *)
+Example C20_nonvacuous_analysis :
+  let stk := [[([1], OExt 1)]]%N in
+  analyse [([1], OExt 1); ([1;2], OExt 2)]%N [((OExt 1, 2), OExt 2)]%N
+          (finder_client [(stk, [1;2;3]); (stk, [1;4])])%N
+  = ([true; true], [GetAttr (OExt 1) 2; GetAttr (OExt 2) 3; GetAttr (OExt 1) 4],
+     [(stk, [1;2;3]); (stk, [1;4])])%N.
+Proof. vm_compute. reflexivity. Qed.
 
 (* non-vacuity: 1=ta 2=ua 3=ub; ta -> (registered) object 1 -ua-> object 2 (registered as ta.ua) -ub-> missing;
    in a second namespace ta is an UNREGISTERED object 9 with an attribute ua: it is never read *)
